@@ -152,7 +152,11 @@ process_data(struct video_filter_s* self,
         *nbytes_read = slice_size_bytes(&slice);
     };
 
-    if (self->sig_accumulator_reset) {
+    // Acknowledge a reset only once the input queue is drained: the source
+    // starts writing to the output queue itself as soon as it is notified, and
+    // that queue has a single write cursor. (The source is waiting, so nothing
+    // more arrives; an empty read means everything committed has been read.)
+    if (self->sig_accumulator_reset && *nbytes_read == 0) {
         LOG("FILTER: accumulator reset (%d)", *frame_count);
         if (*accumulator) {
             *accumulator = 0;
